@@ -106,6 +106,8 @@ class Check:
             ll = build.harness_ir(s.d, os.path.join(VERIF, 'harness', f.harness), f.defs)
             opts = dict(f.opts)
             opts['known'] = known_for_engine(s.prop, f.name, s.known)
+            if f.witness:
+                opts['witness_stop'] = True
             jobs.append({'name': f.name, 'll': ll, 'entry': f.entry, 'opts': opts, 'weight': f.weight,
                          'keep_paths': max(f.validate, 3)})
         results = e1.run_all(jobs)
@@ -131,11 +133,11 @@ class Check:
         s.queries += r['queries']
         s.solver_s += r['solver_s']
         s.obligations += r['paths']
-        if r['aborted']:
+        if r['aborted'] and not (f.witness and r['aborted'] == 'witness'):
             s.problems.append('%s: exploration stopped early (%s): bound not covered' % (f.name, r['aborted']))
         if r['ninconclusive']:
             s.problems.append('%s: %d inconclusive path(s), e.g. %s' % (f.name, r['ninconclusive'], r['inconclusive'][0]))
-        if r['paths'] == 0 and not r['viol']:
+        if r['paths'] == 0 and not r['viol'] and not f.witness:
             s.problems.append('%s: no path completed (vacuous)' % f.name)
         # --- violations: dedupe by (label/kind/msg), replay natively
         seen = {}
